@@ -314,6 +314,7 @@ func execNameTestNamespaceAnyLocalReservedNameConflict(context *exprContext, exp
 	for _, cn := range expr.BSR.GetAllNTChildren() {
 		for _, c := range cn {
 			children = append(children, &c)
+			break
 		}
 	}
 
@@ -605,6 +606,7 @@ func execAbbreviatedRelativeLocationPath(context *exprContext, expr *grammar.Gra
 	for _, cn := range expr.BSR.GetAllNTChildren() {
 		for _, c := range cn {
 			children = append(children, &c)
+			break
 		}
 	}
 
